@@ -135,6 +135,11 @@ func (a *AVP) SerializeTo(b []byte) error {
 	if a.Flags&avp.Vbit == avp.Vbit {
 		binary.BigEndian.PutUint32(b[8:12], a.VendorID)
 	}
+	if g, ok := a.Data.(*GroupedAVP); ok {
+		// Serialize the members in place: a temporary buffer per
+		// nesting level costs memory quadratic in the depth.
+		return g.serializeTo(b[hl:])
+	}
 	payload := a.Data.Serialize()
 	copy(b[hl:], payload)
 	// reset padding bytes
